@@ -1,0 +1,79 @@
+//! Verification hook registry (compiled only with `--cfg rip_verif`).
+//!
+//! With no handler installed every hook is a no-op, so a guarded build behaves
+//! exactly like the normal one. The harness in /verif installs a handler to
+//! observe or schedule the instrumented points.
+
+use std::sync::{Arc, RwLock};
+
+pub trait Hooks: Send + Sync {
+    /// A file-system effect / publish / hand-over happens next.
+    fn point(&self, _name: &'static str) {}
+    /// Placed immediately before a blocking acquire of a real lock; `is_free`
+    /// evaluates `try_lock` (or the permit count) on that real primitive.
+    fn lock_point(&self, _name: &'static str, _is_free: &dyn Fn() -> bool) {}
+    /// Observation only.
+    fn span(&self, _name: &'static str, _begin: bool, _label: &str) {}
+    /// Environment seams; `None` falls through to the real implementation.
+    fn pid(&self) -> Option<u32> {
+        None
+    }
+    fn pid_alive(&self, _pid: u32) -> Option<bool> {
+        None
+    }
+    fn ping(&self, _endpoint: &str) -> Option<bool> {
+        None
+    }
+    /// Returns true when the handler consumed the wait (skip the real sleep).
+    fn retry_sleep(&self, _name: &'static str) -> bool {
+        false
+    }
+}
+
+static HOOKS: RwLock<Option<Arc<dyn Hooks>>> = RwLock::new(None);
+
+pub fn install(hooks: Arc<dyn Hooks>) {
+    *HOOKS.write().unwrap_or_else(|e| e.into_inner()) = Some(hooks);
+}
+
+pub fn clear() {
+    *HOOKS.write().unwrap_or_else(|e| e.into_inner()) = None;
+}
+
+fn current() -> Option<Arc<dyn Hooks>> {
+    HOOKS.read().unwrap_or_else(|e| e.into_inner()).clone()
+}
+
+pub fn point(name: &'static str) {
+    if let Some(h) = current() {
+        h.point(name);
+    }
+}
+
+pub fn lock_point(name: &'static str, is_free: &dyn Fn() -> bool) {
+    if let Some(h) = current() {
+        h.lock_point(name, is_free);
+    }
+}
+
+pub fn span(name: &'static str, begin: bool, label: &str) {
+    if let Some(h) = current() {
+        h.span(name, begin, label);
+    }
+}
+
+pub fn pid() -> Option<u32> {
+    current().and_then(|h| h.pid())
+}
+
+pub fn pid_alive(pid: u32) -> Option<bool> {
+    current().and_then(|h| h.pid_alive(pid))
+}
+
+pub fn ping(endpoint: &str) -> Option<bool> {
+    current().and_then(|h| h.ping(endpoint))
+}
+
+pub fn retry_sleep(name: &'static str) -> bool {
+    current().map(|h| h.retry_sleep(name)).unwrap_or(false)
+}
